@@ -175,6 +175,13 @@ theorem transfer_batch_applied_or_rejected (P : Params) (h : Nat) (e : TxEntry) 
     ∃ v s', applyBatch P h e rates avgs s = .ok v s' ∧ (v = .apply ∨ v = .reject (-1)) :=
   applyBatch_transfers_total P h e rates avgs s a hb hall hplain
 
+/-- the arrival of an entry WITH conversions never fails the block either: recorded, then held -/
+theorem conversion_entry_arrival_never_fails (P : Params) (h : Nat) (keymr : String) (bo : Nat) (e : TxEntry) (s : DB)
+    (hconv : e.hasConversions P = true) (hfresh : ∀ r ∈ s.histT, r.hash ≠ e.hash)
+    (hhold : ∀ r ∈ s.holding, r.entry.hash ≠ e.hash) :
+    ∃ s', applyTxEntry P h keymr bo e s = .ok () s' :=
+  Pegnet.conversion_entry_arrival_never_fails P h keymr bo e s hconv hfresh hhold
+
 /-- non-vacuity: a two-output transfer with change meets `PlainTransfer` -/
 example : PlainTransfer wP { inAddr := "alice", inType := 2, inAmount := 100, transfers := [⟨"bob", 70⟩, ⟨"alice", 30⟩], conversion := 0 } :=
   ⟨by decide, by decide, by decide, by decide, by decide⟩
@@ -194,3 +201,4 @@ end Pegnet.C08
 #print axioms Pegnet.C08.invalid_held_entry_is_rejected_not_fatal
 #print axioms Pegnet.C08.transfer_entry_never_fails
 #print axioms Pegnet.C08.transfer_batch_applied_or_rejected
+#print axioms Pegnet.C08.conversion_entry_arrival_never_fails
